@@ -1,7 +1,7 @@
 #!/venv/bin/python
 """Re-runs every stored seeded change against the current checks (primary
 property only unless --all-listed) and updates meta.json.  Not a registered check.
-usage: tools/seeded_regress.py [--jobs 8] [--tier quick] [--all-listed]"""
+usage: tools/seeded_regress.py [--jobs 8] [--tier quick] [--all-listed] [--only C11-B,C18-A | --only C11]"""
 import concurrent.futures
 import glob
 import json
@@ -38,6 +38,9 @@ def main():
             tier = sys.argv[i + 1]
     all_listed = "--all-listed" in sys.argv
     paths = sorted(glob.glob(os.path.join(ROOT, "seeded", "*", "meta.json")))
+    if "--only" in sys.argv:
+        only = sys.argv[sys.argv.index("--only") + 1].split(",")
+        paths = [p for p in paths if any(os.path.basename(os.path.dirname(p)).startswith(o) for o in only)]
     bad = []
     with concurrent.futures.ThreadPoolExecutor(jobs) as ex:
         for sid, checks, dw, dwo in ex.map(lambda p: one(p, tier, all_listed), paths):
